@@ -179,6 +179,62 @@ fn gen_len(rng: &mut Rng, tier: &str, cap: usize) -> usize {
 }
 
 fn gen_bits(rng: &mut Rng, len: usize, out: &mut Out) -> Vec<bool> {
+    let mut bits = gen_bits_raw(rng, len, out);
+    // the same shapes for zeros: complement half of the time
+    if rng.chance(1, 2) {
+        out.stat("bits:complemented");
+        bits.iter_mut().for_each(|b| *b = !*b);
+    }
+    bits
+}
+
+// block-structure families for DArray (they choose their own length):
+//  * `c` consecutive ones, then one more at distance 65534..65537 from the first (c a multiple of 32 makes
+//    the far one a sub-block head), optionally followed by ones that complete the 1024-block;
+//  * a sparse block (1024 ones spread over >= 65536 bits) followed and/or preceded by dense blocks.
+fn gen_block_family(rng: &mut Rng, out: &mut Out) -> Vec<bool> {
+    let mut bits: Vec<bool> = vec![];
+    if rng.chance(1, 2) {
+        out.stat("bits:exact-span");
+        let lead = rng.pick(&[0usize, 1, 5, 64, 200]);
+        bits.extend(std::iter::repeat(false).take(lead));
+        if rng.chance(1, 3) {
+            // a dense block first
+            bits.extend((0..rng.range(1100, 2300)).map(|_| true));
+            bits.extend(std::iter::repeat(false).take(rng.below(100) as usize));
+        }
+        let first = bits.len();
+        let c = rng.pick(&[1usize, 31, 32, 33, 64, 96, 512, 992, 1000, 1023]);
+        bits.extend(std::iter::repeat(true).take(c));
+        let d = rng.range(65534, 65538) as usize;
+        while bits.len() < first + d { bits.push(false); }
+        bits.push(true);
+        match rng.below(3) {
+            0 => {}
+            1 => { let k = rng.below(1100) as usize; bits.extend(std::iter::repeat(true).take(k)); }
+            _ => { for _ in 0..rng.range(10, 3000) { bits.push(rng.chance(1, 2)); } }
+        }
+    } else {
+        out.stat("bits:sparse-dense-blocks");
+        let nblocks = rng.range(2, 4);
+        for _ in 0..nblocks {
+            if rng.chance(1, 2) {
+                // sparse: ~1024 ones spread over 66000..100000 bits
+                let span = rng.range(66_000, 100_000) as usize;
+                let ones = rng.range(900, 1200);
+                let start = bits.len();
+                bits.extend(std::iter::repeat(false).take(span));
+                for _ in 0..ones { let p = start + rng.below(span as u64) as usize; bits[p] = true; }
+            } else {
+                let span = rng.range(1200, 5000) as usize;
+                for _ in 0..span { bits.push(rng.chance(7, 8)); }
+            }
+        }
+    }
+    bits
+}
+
+fn gen_bits_raw(rng: &mut Rng, len: usize, out: &mut Out) -> Vec<bool> {
     let class = rng.below(11);
     let mut bits = vec![false; len];
     match class {
@@ -211,24 +267,9 @@ fn gen_bits(rng: &mut Rng, len: usize, out: &mut Out) -> Vec<bool> {
             }
         }
         7 => {
-            // exact-span family: 1023 consecutive ones then one more at distance 65534..65537 (if it fits)
-            out.stat("bits:exact-span");
-            let start = rng.below(200) as usize;
-            let d = rng.range(65534, 65537) as usize;
-            for i in 0..1023 {
-                if start + i < len {
-                    bits[start + i] = true;
-                }
-            }
-            if start + d < len {
-                bits[start + d] = true;
-            }
-            // and the same for zeros further on, with some noise after
-            for (i, b) in bits.iter_mut().enumerate() {
-                if i > start + d + 10 {
-                    *b = rng.chance(1, 2);
-                }
-            }
+            out.stat("bits:dense-prefix");
+            let cut = (len / 3).max(1);
+            for (i, b) in bits.iter_mut().enumerate() { *b = i < cut || rng.chance(1, 500); }
         }
         8 => {
             out.stat("bits:single");
@@ -712,7 +753,8 @@ fn bv_queries<B: Access + Rank + Select + NumBits>(
 
 fn kind_rank9(rng: &mut Rng, out: &mut Out, id: &str, tier: &str) {
     let len = gen_len(rng, tier, usize::MAX);
-    let bits = gen_bits(rng, len, out);
+    let bits = if rng.chance(1, 10) { gen_block_family(rng, out) } else { gen_bits(rng, len, out) };
+    let len = bits.len();
     let ones = bits.iter().filter(|&&b| b).count();
     let (h1, h0) = (rng.chance(1, 2), rng.chance(1, 2));
     let via_trait = rng.chance(1, 2);
@@ -740,7 +782,12 @@ fn kind_rank9(rng: &mut Rng, out: &mut Out, id: &str, tier: &str) {
 
 fn kind_darray(rng: &mut Rng, out: &mut Out, id: &str, tier: &str) {
     let len = gen_len(rng, tier, usize::MAX);
-    let bits = gen_bits(rng, len, out);
+    let bits = if rng.chance(2, 5) {
+        let mut b = gen_block_family(rng, out);
+        if rng.chance(1, 2) { out.stat("bits:complemented"); b.iter_mut().for_each(|x| *x = !*x); }
+        b
+    } else { gen_bits(rng, len, out) };
+    let len = bits.len();
     let ones = bits.iter().filter(|&&b| b).count();
     let (wr, ws0) = (rng.chance(1, 2), rng.chance(1, 2));
     let via_trait = rng.chance(1, 2);
@@ -878,7 +925,53 @@ fn gen_universe(rng: &mut Rng, m: usize) -> usize {
     }
 }
 
+fn kind_ef_large(rng: &mut Rng, out: &mut Out, id: &str, tier: &str) {
+    // a 1024-block of the high bits spanning >= 65536 positions needs >= ~33k elements and one huge gap
+    // (ones), or > 64512 duplicates in one bucket (zeros)
+    out.case(id);
+    // (the duplicate family is left to the DArray kind: the model rebuilds Elias-Fano bit by bit)
+    let dup = false;
+    let n = rng.range(33_000, 40_000) as usize;
+    let u = if dup { 2 * n + rng.below(1000) as usize } else { 16 * n + rng.below(1000) as usize };
+    let mut xs: Vec<usize> = Vec::with_capacity(n);
+    if dup {
+        let half = n / 2 + rng.below(100) as usize;
+        for _ in 0..half { xs.push(1000); }
+        let mut v = 1002;
+        while xs.len() < n { xs.push(v); v += rng.range(0, 3) as usize; if v >= u { v = u - 1; } }
+    } else {
+        xs.push(0);
+        for i in 1..n { xs.push(u - n + i); }
+    }
+    let mut b = EliasFanoBuilder::new(u, n).unwrap();
+    out.op(1005, &[u, n], "K".into(), "EliasFanoBuilder::new (large)");
+    out.data(&xs);
+    let r = r_unit(|| b.extend(xs.iter().cloned()));
+    out.op(51, &[], r, "extend");
+    let with_rank = true;
+    let ef = b.build().enable_rank();
+    out.op(52, &[with_rank as usize], "K".into(), "build");
+    out.stat("ef:large-sparse-block");
+    let r = if tier == "thorough" { 40 } else { 14 };
+    out.op(10, &[], r_num(|| ef.len()), "len");
+    for _ in 0..r {
+        let k = rng.below(n as u64) as usize;
+        out.op(61, &[k], r_optnum(|| ef.select(k)), "select");
+        out.op(62, &[k], r_optnum(|| ef.delta(k)), "delta");
+        let p = xs[k];
+        for &q in &[p, p.wrapping_add(1), p.wrapping_sub(1), rng.below(u as u64) as usize] {
+            out.op(63, &[q], r_optnum(|| ef.rank(q)), "rank");
+            out.op(64, &[q], r_optnum(|| ef.predecessor(q)), "predecessor");
+            out.op(65, &[q], r_optnum(|| ef.successor(q)), "successor");
+            out.op(66, &[q], r_optnum(|| ef.binsearch(q)), "binsearch");
+        }
+    }
+    out.op(98, &[], r_num(|| ef.size_in_bytes()), "size_in_bytes");
+    out.end();
+}
+
 fn kind_efb(rng: &mut Rng, out: &mut Out, id: &str, tier: &str) {
+    if rng.chance(1, if tier == "thorough" { 12 } else { 25 }) { return kind_ef_large(rng, out, id, tier); }
     out.case(id);
     let m = match rng.below(12) {
         0 => 0,
@@ -1105,13 +1198,40 @@ fn kind_cv(rng: &mut Rng, out: &mut Out, id: &str, tier: &str) {
 // ------------------------------------------------------------------------------------------
 // integer sequences: draw the bit-length histogram first, then the values
 fn gen_vals(rng: &mut Rng, n: usize, out: &mut Out) -> Vec<usize> {
-    let class = rng.below(8);
+    let class = rng.below(11);
+    out.stat(&format!("vals:class{}", class));
+    if class == 8 {
+        // bulk at one bit length (often above 32) plus a few longer outliers
+        let l1 = if rng.chance(2, 3) { rng.range(33, 62) } else { rng.range(2, 40) };
+        let l2 = rng.range(l1 + 1, 64);
+        let bulk = |rng: &mut Rng, l: u64| -> usize { (if l == 64 { rng.next() | (1 << 63) } else { (rng.next() & ((1u64 << l) - 1)) | (1u64 << (l - 1)) }) as usize };
+        let outliers = rng.range(1, 5) as usize;
+        let mut v: Vec<usize> = (0..n).map(|i| if i < outliers { bulk(rng, l2) } else { bulk(rng, l1) }).collect();
+        if n > 1 { let j = rng.below(n as u64) as usize; v.swap(0, j); }
+        return v;
+    }
+    if class == 9 {
+        // steeply geometric histogram: counts shrink by a factor 4..12 per step of 1..3 bits
+        let factor = rng.range(4, 12);
+        let mut v = vec![];
+        let mut l = 1u64;
+        let mut cnt = n.max(1) as u64;
+        while cnt > 0 && l <= 64 && v.len() < n {
+            for _ in 0..cnt.min((n - v.len()) as u64) {
+                let x = if l == 1 { rng.below(2) } else if l == 64 { rng.next() | (1 << 63) } else { (rng.next() & ((1u64 << l) - 1)) | (1u64 << (l - 1)) };
+                v.push(x as usize);
+            }
+            cnt /= factor;
+            l += rng.range(1, 3);
+        }
+        while v.len() < n { v.push(rng.below(2) as usize); }
+        return v;
+    }
     let maxbits = match class {
         0 => 1,
         1 => 64,
         _ => rng.range(1, 64),
     };
-    out.stat(&format!("vals:class{}", class));
     // histogram weights over bit lengths 1..=maxbits
     let mut weights: Vec<u64> = (0..maxbits).map(|_| if rng.chance(1, 3) { 0 } else { rng.range(1, 20) }).collect();
     if class == 3 { weights.iter_mut().for_each(|w| *w = 1); }
@@ -1357,14 +1477,16 @@ fn kind_wm(rng: &mut Rng, out: &mut Out, id: &str, tier: &str) {
     };
     // alphabets: sigma = 1, 2^j, 2^j +- 1, 64-bit
     let sigma_class = rng.below(8);
+    let mut n = n;
     let vals: Vec<usize> = match sigma_class {
         0 => vec![0; n],
         1 => { let j = rng.range(1, 12); (0..n).map(|_| rng.below(1 << j) as usize).collect() }
         2 => { let j = rng.range(1, 12); let mut v: Vec<usize> = (0..n).map(|_| rng.below(1 << j) as usize).collect(); v[0] = (1 << j) - 1; v }
         3 => { let j = rng.range(1, 12); let mut v: Vec<usize> = (0..n).map(|_| rng.below(1 << j) as usize).collect(); v[0] = (1 << j) - 2; v.iter_mut().for_each(|x| *x = (*x).min((1 << j) - 2)); v }
         4 => { let j = rng.range(1, 12); let mut v: Vec<usize> = (0..n).map(|_| rng.below(1 << j) as usize).collect(); v[0] = 1 << j; v }
-        5 if n <= 300 => (0..n).map(|_| if rng.chance(1, 2) { rng.next() as usize & (usize::MAX >> 1) } else { rng.below(4) as usize }).collect(),
-        6 if n <= 300 => { let mut v: Vec<usize> = (0..n).map(|_| rng.next() as usize).collect(); v[0] = usize::MAX - 1; v }
+        5 if n <= 400 => (0..n).map(|_| if rng.chance(1, 2) { rng.next() as usize & (usize::MAX >> 1) } else { rng.below(4) as usize }).collect(),
+        6 if n <= 400 => { let mut v: Vec<usize> = (0..n).map(|_| rng.next() as usize).collect(); v[0] = usize::MAX - 1; v }
+        5 | 6 => { let j = rng.range(30, 50); let mut v: Vec<usize> = (0..n).map(|_| rng.below(1 << j) as usize).collect(); v[0] = (1usize << j) - rng.range(0, 2) as usize; v.truncate(600); v }
         _ => (0..n).map(|_| rng.below(5) as usize).collect(),
     };
     out.stat(&format!("wm:sigma-class{}", sigma_class));
